@@ -78,14 +78,14 @@ func (c04) ID() string { return "C04" }
 
 // fault kinds applicable per position class
 var (
-	c04Any      = []string{FErr, FValErr, FPanicErr, FPanicStr, FPanicInt, FNil, FTypedNil, FThunk, FThunkErr, FThunkPanic, FThunkNil, FThunkBad}
+	c04Any      = []string{FErr, FValErr, FPanicErr, FPanicStr, FPanicInt, FNil, FTypedNil, FThunk, FThunkErr, FThunkPanic, FThunkNil, FThunkBad, FThunkValErr}
 	c04Leaf     = []string{FWrongKind, FNaN, FBigInt, FBigIntStr, FBadEnum}
 	c04List     = []string{FWrongKind, FNotIter, FElemThunk}
 	c04LeafList = []string{FElemPanic}
 	c04Abs      = []string{FRTNil, FRTWrong, FRTPanic, FWrongKind}
 	c04IsType   = []string{FITFalse, FITPanic}
 	c04Stamp    = []string{FSerNil, FSerPanic}
-	deferredFK  = map[string]bool{FThunkErr: true, FThunkPanic: true, FThunkNil: true, FThunkBad: true}
+	deferredFK  = map[string]bool{FThunkErr: true, FThunkPanic: true, FThunkNil: true, FThunkBad: true, FThunkValErr: true}
 )
 
 type c04Pos struct {
@@ -594,7 +594,7 @@ func (c04) Run(t TestingT, scn json.RawMessage, tape *Tape) *Outcome {
 		switch kind {
 		case FErr, FValErr, FPanicErr, FPanicStr, FPanicInt, FNotIter, FRTNil, FRTWrong, FRTPanic, FITFalse, FITPanic, FSerPanic:
 			hard = true
-		case "T:" + FErr, "T:" + FPanicErr:
+		case "T:" + FErr, "T:" + FPanicErr, "T:" + FValErr:
 			hard, deferred = true, true
 		case FThunkBad:
 			hard, deferred = true, true
